@@ -35,10 +35,10 @@ func (r *Rng) Intn(n int) int {
 	}
 	return int(r.U64() % uint64(n))
 }
-func (r *Rng) Bool() bool          { return r.U64()&1 == 1 }
-func (r *Rng) Chance(p int) bool   { return r.Intn(100) < p }
+func (r *Rng) Bool() bool              { return r.U64()&1 == 1 }
+func (r *Rng) Chance(p int) bool       { return r.Intn(100) < p }
 func (r *Rng) Pick(xs []string) string { return xs[r.Intn(len(xs))] }
-func (r *Rng) I64() int64 { return int64(r.U64()) }
+func (r *Rng) I64() int64              { return int64(r.U64()) }
 
 // ---------- case records ----------
 
